@@ -20,7 +20,8 @@ theorem roundtrip_FN_doc (ft : Feat) (e : BEnv) (Γ : Ctx) (cfg : SerCfg) (pcfg 
     (c : ClassId) (v : Val) (hΓ : ctxOK ft Γ = true) (hv : valOKI ft.inherit e Γ c v = true) :
     ∃ evs, generate e Γ cfg v = .ok evs ∧
       eventsTree (isDatatype Γ) evs = .ok (docOf Γ cfg (prefixMap (collectUris evs)) c v) ∧
-      parseRoot e Γ pcfg c (docOf Γ cfg (prefixMap (collectUris evs)) c v) = .ok (v, 0) := by
+      parseRoot e Γ pcfg c (docOf Γ cfg (prefixMap (collectUris evs)) c v) = .ok (v, 0) ∧
+      plain (prefixMap (collectUris evs)) (docOf Γ cfg (prefixMap (collectUris evs)) c v) = true := by
   unfold valOKI at hv
   obtain ⟨n, hn⟩ : ∃ n, v.size = n + 1 := ⟨v.size - 1, by cases v <;> simp [Val.size] <;> omega⟩
   rw [hn] at hv
@@ -49,7 +50,7 @@ theorem roundtrip_FN_doc (ft : Feat) (e : BEnv) (Γ : Ctx) (cfg : SerCfg) (pcfg 
   have hdoc : docOf Γ cfg (prefixMap (collectUris evs')) c (.obj c fields) =
       treeNN Γ cfg (prefixMap (collectUris evs')) (n + 1) none none m.qname (.obj c fields) := by
     simp [docOf, hm, hn]
-  refine ⟨evs', by rw [hgenEq]; exact hgen, ?_, ?_⟩ <;> rw [hdoc]
+  refine ⟨evs', by rw [hgenEq]; exact hgen, ?_, ?_, by rw [hdoc]; exact hplain⟩ <;> rw [hdoc]
   · have hfold := hsub.2 {} rfl (fun _ => rfl)
     simp only [eventsTree, eventsSax, hfold, bind, Except.bind, pure, Except.pure, afterW,
       WState.flush, List.nil_append, saxTree_root _ _ hplain]
